@@ -210,15 +210,15 @@ theorem nestedA_witnesses :
     nestedA [] [] witnessArraySep = true ∧ nestedA [] [] witnessArrayParenFn = true ∧
     nestedA [] [] witnessNestedArray = true := by decide
 
-/-- what `nestedA` still excludes beyond plain bracket nesting, after the repairs d5de215 / cdb1ef6: a row
-that opens UNDERNEATH a parenthesis inside an array constant whose row a stray `)` closed
-(`{1)(ARRAYROW(2))}`) — the frames cannot represent it.  The evaluator does not panic on it (the checker
-is conservative here, the shape stays under the harness oracle). -/
-theorem nestedA_conservative_example :
+/-- the shape `nestedA` used to exclude — a row opened and closed UNDERNEATH a parenthesis inside an array
+constant whose first row a stray `)` closed; efp does emit it, for `{1)(ARRAYROW(2))}` — is inside the
+discipline now (rows and array constants are found through parentheses, as `array()` of calc.go finds
+them), so `eval_no_panic` covers it; likewise a row or a constant closed across an open parenthesis. -/
+theorem nestedA_rows_through_parentheses :
     nestedA [] [] [fstart "ARRAY", fstart "ARRAYROW", num "1", fstop, ⟨"", .subexpr, .start⟩, fstart "ARRAYROW",
-      num "2", fstop, ⟨"", .subexpr, .stop⟩, fstop, fstop] = false ∧
-    evalTokens semU [fstart "ARRAY", fstart "ARRAYROW", num "1", fstop, ⟨"", .subexpr, .start⟩, fstart "ARRAYROW",
-      num "2", fstop, ⟨"", .subexpr, .stop⟩, fstop, fstop] ≠ .panic := by decide
+      num "2", fstop, ⟨"", .subexpr, .stop⟩, fstop, fstop] = true ∧
+    nestedA [] [] [fstart "SUM", fstart "ARRAY", ⟨"", .subexpr, .start⟩, fstart "ARRAYROW", num "2", fstop, fstop,
+      ⟨"", .subexpr, .stop⟩, fstop] = true := by decide
 
 /-! ## deep nesting ("deep nesting … in bounded time without panicking": no stack overflow) -/
 
@@ -276,6 +276,50 @@ theorem eval_deterministic {V : Type} (G : Graph V) (M entry : Nat) (fc : List N
   unfold calcEntry at *
   rw [e1, e2]
   exact ⟨rfl, rfl⟩
+
+/-- **The cut-off's state, as the source has it** (regenerated facts).  In the whole package the two maps
+of `calcContext` are created once per `CalcCellValue` and written by exactly one `++` and one cache
+assignment, both in `cellResolver`; no other statement mentions them (4 selector expressions: guard,
+`++`, cache write, cache read — an alias would add one); the cut-off branch is, in order,
+`iterations[ref]++; unlock; arg = calcCellValue(…); iterationsCache[ref] = arg; return arg`
+and the refusal path returns the cache entry.  This is what `resolveAll` transcribes
+(`bump`, `rec`, `setCache`); a decrement or a reset of a counter (the seeded change C09d/1) breaks it. -/
+theorem cutoff_state_machine_facts :
+    Facts.C09.ctxCounterWrites =
+      ["CalcCellValue: iterations: make(map[string]uint)",
+       "CalcCellValue: iterationsCache: make(map[string]formulaArg)",
+       "cellResolver: ctx.iterationsCache[ref] = arg",
+       "cellResolver: ctx.iterations[ref]++"] ∧
+    Facts.C09.ctxCounterMentions = 4 ∧
+    Facts.C09.cutoffBranch =
+      ["ctx.iterations[ref]++", "ctx.mu.Unlock()", "arg, _ = f.calcCellValue(ctx, sheet, cell)",
+       "ctx.iterationsCache[ref] = arg", "return arg, nil"] ∧
+    Facts.C09.cutoffRefused = ["ctx.mu.Unlock()", "return ctx.iterationsCache[ref], nil"] := by decide
+
+/-- **The visit counters only grow** during one `CalcCellValue` (every reference graph, every fuel):
+the cut-off is a monotone state machine, which is what makes `mu` a measure. -/
+theorem cutoff_counters_monotone {V : Type} (G : Graph V) (M entry fuel : Nat) (v : V) (c : Ctx V)
+    (h : calcEntry G M fuel entry = some (v, c)) : ∀ r, (Ctx.init : Ctx V).iterations r ≤ c.iterations r :=
+  calcCell_iter_mono G M entry fuel Ctx.init entry v c h
+
+/-- **Bounded work.**  If no formula has more than `R` operands (range operands expanded), one
+`CalcCellValue` enters `cellResolver` at most `R · ((M+1)·F + 1)` times: the work is bounded by a
+function of the number of formula cells `F`, the iteration limit `M` and the widest formula — on every
+reference graph, cyclic or not, however many paths lead to a shared precedent. -/
+theorem cycle_work_bounded {V : Type} (G : Graph V) (M entry R : Nat) (fc : List Nat)
+    (hn : fc.Nodup) (hfc : ∀ r, G.isFormula r = true → r ∈ fc)
+    (hR : ∀ cell, (G.refs cell).length ≤ R) :
+    ∃ v c, calcEntry G M ((M + 1) * fc.length + 1) entry = some (v, c) ∧
+      c.calls ≤ (M + 1) * fc.length + 1 ∧ c.resolves ≤ R * ((M + 1) * fc.length + 1) := by
+  obtain ⟨v, c, h, hc, _⟩ := cycle_cutoff_terminates G M entry fc hn hfc
+  refine ⟨v, c, h, hc, ?_⟩
+  have w := calcCell_work G M entry R hR _ Ctx.init entry v c h
+  unfold Work at w
+  have h0 : (Ctx.init : Ctx V).calls = 0 := rfl
+  have h1 : (Ctx.init : Ctx V).resolves = 0 := rfl
+  rw [h0, h1] at w
+  have := Nat.mul_le_mul_left R hc
+  omega
 
 /-! ## state outside the context: lazy array-formula expansion ("returns the same answer every time it is asked") -/
 
@@ -345,6 +389,15 @@ or callee in calc.go / cell.go breaks this theorem. -/
 theorem eval_frame_modelled :
     (∀ w ∈ Facts.C09.evalWrites, (classifyWrite w).isSome = true) ∧
     (∀ c ∈ Facts.C09.evalCalls, (classifyCall c).isSome = true) := by decide
+
+/-- **The function library stays inside the frame** (regenerated): inside the 455+ methods of
+`formulaFuncs` the workbook `fn.f` is only used through readers, the evaluator itself
+(`CalcCellValue` with a fresh context, `parseReference`) and the options; it is never handed to
+anything else, and no method assigns through its receiver or through a worksheet.  So the traces
+`eval_pure` quantifies over cover the library as well. -/
+theorem library_frame_modelled :
+    (∀ u ∈ Facts.C09.libWorkbookUses, (classifyLibUse u).isSome = true) ∧
+    Facts.C09.libWorkbookBare = 0 ∧ Facts.C09.libReceiverWrites = [] := by decide
 
 /-- **`eval_pure`: `Obs (evalState wb c).2 = Obs wb` for the modelled state.**  Whatever sequence
 of framed writes an evaluation performs (flag, lazy `c.f`, materialised empty slots, lazily
